@@ -325,6 +325,7 @@ ping_data::ping_data(): n_sent(0), n_recv(0), n_replies_expected(0), timeout(0),
 {
     start.tv_sec = 0; start.tv_usec = 0; stop.tv_sec = 0; stop.tv_usec = 0;
 }
+const char *null_string = ""; // globals.cc is not linked
 void StatHist::enumInit(unsigned int) {}
 void StatHist::count(double) {}
 StatCounters statCounter;
